@@ -122,7 +122,7 @@ check('C16', TV,
       'SMT equivalence (xor of feasible sets, QF_LRA/QF_NRA) between formula and parsed export',
       'DESIGN.md section 4 C16')
 
-check('C10', 'proof',
+check('C10', TV,
       'Inductive proof over operation chains, executed on the real methods: an arbitrary state of a Convex-family '
       'object satisfying the invariant (k = sign*multiplier^e, offset, multiplier >= 0, sign 0 only with multiplier 0) is '
       'built with symbolic multiplier/offset, one real operation (__neg__/__mul__/__rmul__/__add__/__radd__/__sub__/'
@@ -132,8 +132,11 @@ check('C10', 'proof',
       'denotes the written constraint, and that strictly convex uses are not rejected - for Convex, PerspConvex, '
       'DecConvex, DecPerspConvex (all 18 atom type letters) and PiecewiseConvex/ExpPiecewiseConvex. Chains of any length '
       'follow by induction. Layer T runs real atoms x chains with real affine offsets x every comparison form and min/max '
-      'objective in the ro and dro front ends: non-convex forms must raise before a program exists.',
-      'Bounded only in paths per operation (64, exhausted in every case). Trusted: the concolic scalar class, z3, the '
+      'objective in the ro and dro front ends: non-convex forms must raise before a program exists. Layer M: for 16 atoms x 9 '
+      'chains x constraint / objective forms the real compiled program is validated against k*atom + affine (inclusion and '
+      'exists-forall projection, the machinery of C06/C07; nonlinear projections are stretch obligations).',
+      'The invariant layer is an inductive argument whose step is decided per path; the claim as a whole is translation '
+      'validation over bounded families, not a proof. Bounded only in paths per operation (64, exhausted in every case). Trusted: the concolic scalar class, z3, the '
       'reading of a CvxConstr record (validated by C06/C07). Affine (non-scalar) offsets are covered concretely in layer '
       'T; bilinear products are a finite type matrix executed concretely.',
       'concolic (dynamic symbolic) execution of the real curvature calculus + SMT per path; inductive invariant',
